@@ -115,11 +115,11 @@ func (m *monitors) expectEntries(r *run, c *call, req *model.PushPullMessage) {
 }
 
 // checkEntries is called after the response of that request has been applied by the client.
-func (m *monitors) checkEntries(r *run, c *call) {
+func (m *monitors) checkEntries(r *run, c *call, racy bool) {
 	es := m.entries[c]
 	delete(m.entries, c)
-	if c.resp == nil || c.resp.err != nil {
-		return // the exchange failed as a whole; nothing to say about the contract
+	if c.resp == nil || c.resp.err != nil || c.dropped {
+		return // the exchange failed as a whole; nothing to say about the contract (the retry is judged)
 	}
 	resp, _ := c.resp.msg.(*model.PushPullMessage)
 	req, _ := c.req.(*model.PushPullMessage)
@@ -148,6 +148,20 @@ func (m *monitors) checkEntries(r *run, c *call) {
 			}
 		}
 		state := e.d.dt.GetState()
+		if racy {
+			// Several entry requests were served at the same time: which of them creates, which one
+			// subscribes, is refused or is sent away because the key was busy depends on the schedule.
+			// What holds on every schedule: the handler reports SUBSCRIBED at most once, a request that
+			// did not get in is told so, and (checked elsewhere) one datatype per key, convergence.
+			r.probe("entry-raced")
+			if subscribedNow > 1 {
+				r.fail("entry", "C13.subscribed-once", "reported-2", "%s: the state-change handler of %s reported the transition to SUBSCRIBED %d times", e.a.name, e.d.key, subscribedNow)
+			}
+			if state != model.StateOfDatatype_SUBSCRIBED && len(newErrs) == 0 {
+				r.fail("entry", "C13.refused-cleanly", e.mode+"/no-error-reported", "%s: %s of %s (racing with other entry requests) did not get in, but the error handler was not called", e.a.name, e.mode, e.d.key)
+			}
+			continue
+		}
 		r.probe("entry-" + e.mode + "-" + e.outcome)
 		switch e.outcome {
 		case "refused":
@@ -176,7 +190,8 @@ func (m *monitors) checkEntries(r *run, c *call) {
 				if di.doc.CollectionNum != colNum || di.doc.Key != e.d.key || pack.CheckPoint == nil {
 					continue
 				}
-				if e.outcome == "subscribed" && e.d.nLocalSinceOpen == 0 {
+				// (SubscribeOrCreate that turns out to be a subscription drops what was done locally before)
+				if e.outcome == "subscribed" && (e.d.nLocalSinceOpen == 0 || e.mode == "soc") {
 					dt, errS := r.replay(di, pack.CheckPoint.Sseq)
 					if errS == "" {
 						want := viewOfDT(dt)
